@@ -114,6 +114,8 @@ mod zone;
 
 pub use self::answer::{Answer, AnswerAuthority, AnswerContent};
 pub use self::in_memory::ZoneBuilder;
+#[cfg(domain_verif)]
+pub use self::in_memory::verif_hooks;
 pub use self::traits::{
     ReadableZone, WritableZone, WritableZoneNode, ZoneDiff, ZoneDiffItem,
     ZoneStore,
